@@ -80,6 +80,22 @@ def run(case):
         assert_fresh(tb, (lambda: t.gaps(support=sup)) if sup is not None else (lambda: t.gaps()), "gaps()")
         assert_fresh(tb, lambda: t.extrude(rem, mode=("loose", "strict", "intersection")[len(case["t"]) % 3]), "extrude()")
         assert segs_of(tb, t.gaps(support=sup) if sup is not None else t.gaps()) == out["gaps"]
+        if tb.prec is None and case["regime"] == "K0" and len(case["t"]) < 30:
+            # the same timeline completed with an open-ended segment, within an open-ended support: the gaps are those
+            # of the finite part up to where the open-ended segment starts; covers and extrude agree
+            from pyannote.core import Segment, Timeline
+            inf = float("inf")
+            mem = list(t)
+            lo_ = min([s_.start for s_ in mem] + [0]) - 3
+            hi_ = max([s_.end for s_ in mem] + [0]) + 5
+            opn = Timeline(mem + [Segment(hi_, inf)])
+            want = list(t.gaps(support=Segment(lo_, hi_)))
+            got = list(opn.gaps(support=Segment(lo_, inf)))
+            assert got == want, "gaps within an open-ended support: %r, expected %r" % (got, want)
+            assert bool(opn.covers(Timeline([Segment(lo_, inf)]))) == (not want)
+            assert list(Timeline([Segment(lo_, inf)]).extrude(opn, mode="intersection")) == want
+            lft = Timeline(mem + [Segment(-inf, lo_)])
+            assert list(lft.gaps(support=Segment(-inf, hi_))) == want
         return out
     finally:
         tb.leave()
